@@ -15,6 +15,11 @@ MAP = {
  "C16a": ["C16"], "C16b": ["C16"], "C17a": ["C17", "C07"], "C17b": ["C17"], "C18a": ["C18", "C05"], "C18b": ["C18", "C09"],
  "C19a": ["C19"], "C19b": ["C19"], "C20a": ["C20"], "C20b": ["C20"],
 }
+MAP.update({
+ "C01c": ["C01", "C10"], "C01d": ["C01", "C12"], "C03c": ["C03", "C18"], "C03d": ["C03", "C04"], "C05c": ["C05", "C01"], "C05d": ["C05", "C16"],
+ "C10c": ["C10"], "C10d": ["C10"], "C13c": ["C13"], "C13d": ["C13"], "C15c": ["C15"], "C15d": ["C15"],
+ "C16c": ["C16", "C13"], "C16d": ["C16", "C10"], "C18c": ["C18", "C03"], "C18d": ["C18"],
+})
 only = sys.argv[1:]
 
 
@@ -22,7 +27,7 @@ def run(sid):
     pid, x = sid[:3], sid[3]
     patch = os.path.join(V, "seeded", sid, "patch.diff")
     if not os.path.exists(patch):
-        patch = "/tmp/seed/%s.out/%s/patch.diff" % (pid, x)
+        patch = "/tmp/seed/%s.out/%s/patch.diff" % (pid, x) if x in "ab" else "/tmp/seed2/%s.out/%s/patch.diff" % (pid, {"c": "a", "d": "b"}[x])
     wt = "/tmp/mx/%s" % sid
     out = "/tmp/mx/out-%s" % sid
     subprocess.run(["git", "-C", "/repo", "worktree", "remove", "--force", wt], capture_output=True)
